@@ -658,7 +658,7 @@ func init() {
 	vh.Register(&vh.Check{
 		ID: "C17", Level: "model_checking",
 		Technique: "exhaustive enumeration of cut sets: the byte stream (or WebSocket frame stream, after a real handshake over an in-memory connection) of every message sequence is delivered to the real codec split at every set of <=k candidate offsets, including no cut at all (full coalescing); delay-bounded schedule DFS of three concurrent writers on the gorilla codec with every net.Conn write as a scheduling point",
-		Rule:      "message sequences of length 1-4 over {tiny request, nested reply, 5 kB params, unicode/escapes, error reply}; candidate cut offsets: every offset for streams <=420 bytes, else frame/message boundaries -4..+14, every 997th byte and the 4096 write-buffer edge; all cut sets of size <=2 (quick) / <=3 (thorough); stream codec, HTTP server request bodies and client response bodies, gorilla and gobwas codecs in both directions; oracle: sequence read == sequence written, then nothing more",
+		Rule:      "message sequences of length 1-4 over {tiny request, nested reply, 5 kB params, unicode/escapes, error reply}; candidate cut offsets: every offset for streams <=420 bytes, else frame/message boundaries -4..+14, every 997th byte and the 4096 write-buffer edge; all cut sets of size <=2 (quick) / <=3 (thorough); stream codec, HTTP server request bodies and client response bodies, gorilla and gobwas codecs in both directions; oracle: sequence read == sequence written, then nothing more; gorilla<->gobwas pairings in both roles",
 		Assumptions: []string{
 			"WebSocket frames are produced by the real client/server codec (client frames are masked with random keys; only lengths are relied upon)",
 			"the in-memory connection delivers exactly the chosen chunks (no further splitting)",
